@@ -58,3 +58,32 @@ package internal
 // Key extraction functions only inspect the command.
 //@ functype KeyExtractionFunc props C06
 //@   modifies nothing
+
+// ---- persistence helpers -----------------------------------------------------------------------
+
+// FilterExpiredKeys removes exactly the keys whose deadline is before `now`, in every database, and nothing else.
+//@ func FilterExpiredKeys props C03,C09,C20
+//@   assumes own-dbs: forall d int, e int :: d != e && state[d] != nil ==> state[d] != state[e]
+//@   requires present: forall d int :: has(state, d) ==> state[d] != nil
+//@   ensures same: result == state
+//@   ensures {C03,C20} filtered: forall d int, k string :: has(state, d) ==> (has(state[d], k) <==> (old(has(state[d], k)) && !(old(state[d][k].ExpireAt) != zerotime && old(state[d][k].ExpireAt) < now)))
+//@   ensures {C03,C20} values: forall d int, k string :: has(state, d) && has(state[d], k) ==> state[d][k] == old(state[d][k])
+//@   ensures {C20} dbs: forall d int :: (has(state, d) <==> old(has(state, d))) && state[d] == old(state[d])
+//@   modifies heap:Mdom_string_internal_KeyData, heap:Mval_string_internal_KeyData, heap:Mcard_string_internal_KeyData
+//@   loop 0
+//@     invariant forall d int :: (has(state, d) <==> old(has(state, d))) && state[d] == old(state[d])
+//@     invariant forall d int :: domain0(d) <==> has(state, d)
+//@     invariant forall d int, k string :: seen(d) ==> (has(state[d], k) <==> (old(has(state[d], k)) && !(old(state[d][k].ExpireAt) != zerotime && old(state[d][k].ExpireAt) < now)))
+//@     invariant forall d int, k string :: has(state, d) && !seen(d) ==> (has(state[d], k) <==> old(has(state[d], k)))
+//@     invariant forall d int, k string :: has(state, d) && has(state[d], k) ==> state[d][k] == old(state[d][k])
+//@   loop 1
+//@     invariant forall k string :: (exists i int :: 0 <= i && i < len(keysToDelete) && keysToDelete[i] == k) <==> (seen(k) && old(state[database][k].ExpireAt) != zerotime && old(state[database][k].ExpireAt) < now)
+//@     invariant keysToDelete == nil || fresh(keysToDelete)
+//@     invariant forall k string :: domain0(k) <==> old(has(state[database], k))
+//@   loop 2
+//@     invariant -1 <= rangeindex && rangeindex < len(keysToDelete)
+//@     invariant forall d int :: (has(state, d) <==> old(has(state, d))) && state[d] == old(state[d])
+//@     invariant forall d int, k string :: d != database && seenin(0, d) ==> (has(state[d], k) <==> (old(has(state[d], k)) && !(old(state[d][k].ExpireAt) != zerotime && old(state[d][k].ExpireAt) < now)))
+//@     invariant forall d int, k string :: d != database && has(state, d) && !seenin(0, d) ==> (has(state[d], k) <==> old(has(state[d], k)))
+//@     invariant forall d int, k string :: has(state, d) && has(state[d], k) ==> state[d][k] == old(state[d][k])
+//@     invariant forall k string :: has(state[database], k) <==> (old(has(state[database], k)) && !(exists i int :: 0 <= i && i <= rangeindex && keysToDelete[i] == k))
